@@ -70,6 +70,9 @@ func (m *Machine) unop(fr *frame, instr *ssa.UnOp, x Value) Value {
 		bits, signed, _ := intInfo(instr.Type())
 		return tWrap(tNeg(t), bits, signed)
 	case token.MUL:
+		if sp, ok := x.(*symPtr); ok {
+			return m.loadSym(sp)
+		}
 		return m.load(x.(*Value))
 	case token.NOT:
 		return tNot(x.(*Term))
@@ -770,21 +773,56 @@ func boundTerm(t *Term, lo, hi int64) *Term {
 	return &c
 }
 
-func (m *Machine) indexAddr(x Value, idx *Term) *Value {
+// elemRef remembers which backing array an element pointer belongs to (for unsafe.String/Slice).
+type elemRef struct {
+	elems []Value
+	i     int
+}
+
+// symPtr is the address of an element selected by a symbolic index: loads become an ite
+// chain over the elements, stores case-split on the index.
+type symPtr struct {
+	elems []Value
+	idx   *Term
+}
+
+func (m *Machine) indexAddr(x Value, idx *Term) Value {
+	var elems []Value
 	switch xv := x.(type) {
 	case sliceV:
-		i := m.boundsCheck(idx, xv.len)
-		return xv.at(i)
+		elems = xv.elems()
 	case *Value:
 		if xv == nil {
 			m.rtPanic("nil pointer dereference (index of nil *array)")
 		}
-		arr := (*xv).(arrayV)
-		i := m.boundsCheck(idx, len(arr))
-		return &arr[i]
+		elems = []Value((*xv).(arrayV))
+	default:
+		m.unsupported("IndexAddr on %T", x)
 	}
-	m.unsupported("IndexAddr on %T", x)
-	return nil
+	if idx.IsConst() {
+		i := m.boundsCheck(idx, len(elems))
+		p := &elems[i]
+		if i == 0 {
+			m.elemOf[p] = elemRef{elems, i}
+		}
+		return p
+	}
+	m.fault(tOr(tCmp("<", idx, mkInt64(0)), tCmp(">=", idx, mkInt64(int64(len(elems))))), "index out of range")
+	bi := boundTerm(idx, 0, int64(len(elems)-1))
+	span := new(big.Int).Sub(bi.hi, bi.lo)
+	if span.IsInt64() && span.Int64() <= 8 {
+		return &elems[m.concretize(bi, "index")]
+	}
+	return &symPtr{elems: elems, idx: bi}
+}
+
+func (m *Machine) loadSym(p *symPtr) Value {
+	return m.iteChain(p.idx, len(p.elems), func(i int) Value { return p.elems[i] })
+}
+
+func (m *Machine) storeSym(p *symPtr, v Value) {
+	i := m.concretize(p.idx, "store through symbolic index")
+	store(&p.elems[i], v)
 }
 
 func (m *Machine) boundsCheck(idx *Term, n int) int {
@@ -819,21 +857,62 @@ func (m *Machine) index(x Value, idx *Term) Value {
 	return nil
 }
 
-// iteChain reads element idx of n elements (all *Term) as a nested ite; falls back to case split.
+// iteChain reads element idx of n elements (all *Term) as nested ites; constant tables are
+// grouped by value so that e.g. a 256-entry classification table becomes a few range tests.
 func (m *Machine) iteChain(idx *Term, n int, get func(int) Value) Value {
-	allTerms := true
+	allTerms, allConst := true, true
 	for i := 0; i < n; i++ {
-		if _, ok := get(i).(*Term); !ok {
+		t, ok := get(i).(*Term)
+		if !ok {
 			allTerms = false
 			break
 		}
+		if !t.IsConst() || t.sort != SInt {
+			allConst = false
+		}
 	}
-	if !allTerms || n > 300 {
-		i := m.concretize(boundTerm(idx, 0, int64(n-1)), "index")
+	lo, hi := 0, n-1
+	if idx.lo != nil && idx.lo.IsInt64() && idx.lo.Int64() > 0 {
+		lo = int(idx.lo.Int64())
+	}
+	if idx.hi != nil && idx.hi.IsInt64() && idx.hi.Int64() < int64(hi) {
+		hi = int(idx.hi.Int64())
+	}
+	if !allTerms {
+		i := m.concretize(boundTerm(idx, int64(lo), int64(hi)), "index")
 		return copyVal(get(int(i)))
 	}
-	r := get(n - 1).(*Term)
-	for i := n - 2; i >= 0; i-- {
+	if allConst && hi-lo > 8 {
+		// group maximal runs of equal values
+		type run struct {
+			from, to int
+			v        *Term
+		}
+		var runs []run
+		for i := lo; i <= hi; i++ {
+			t := get(i).(*Term)
+			if len(runs) > 0 && runs[len(runs)-1].v.iv.Cmp(t.iv) == 0 {
+				runs[len(runs)-1].to = i
+			} else {
+				runs = append(runs, run{i, i, t})
+			}
+		}
+		if len(runs) > 600 {
+			i := m.concretize(boundTerm(idx, int64(lo), int64(hi)), "index")
+			return get(int(i))
+		}
+		r := runs[len(runs)-1].v
+		for k := len(runs) - 2; k >= 0; k-- {
+			r = tIte(tCmp("<=", idx, mkInt64(int64(runs[k].to))), runs[k].v, r)
+		}
+		return r
+	}
+	if hi-lo > 300 {
+		i := m.concretize(boundTerm(idx, int64(lo), int64(hi)), "index")
+		return copyVal(get(int(i)))
+	}
+	r := get(hi).(*Term)
+	for i := hi - 1; i >= lo; i-- {
 		r = tIte(tEq(idx, mkInt64(int64(i))), get(i).(*Term), r)
 	}
 	return r
@@ -1309,6 +1388,51 @@ func (m *Machine) callBuiltin(caller *frame, fn *ssa.Builtin, args []Value, site
 			m.rtPanic("value method called using nil pointer")
 		}
 		return recv
+	case "String": // unsafe.String(ptr, len)
+		p := args[0].(*Value)
+		n := int(m.concretize(args[1].(*Term), "unsafe.String len"))
+		if n == 0 {
+			return Str{}
+		}
+		ref, ok := m.elemOf[p]
+		if !ok || ref.i+n > len(ref.elems) {
+			m.unsupported("unsafe.String of an untracked pointer")
+		}
+		out := make([]*Term, n)
+		for i := 0; i < n; i++ {
+			out[i] = ref.elems[ref.i+i].(*Term)
+		}
+		return mkStrTerms(out)
+	case "SliceData":
+		sv := args[0].(sliceV)
+		if sv.cap == 0 {
+			return (*Value)(nil)
+		}
+		p := &sv.a[sv.off]
+		m.elemOf[p] = elemRef{sv.a[sv.off : sv.off+sv.cap], 0}
+		return p
+	case "Slice": // unsafe.Slice(ptr, len)
+		p := args[0].(*Value)
+		n := int(m.concretize(args[1].(*Term), "unsafe.Slice len"))
+		if p == nil {
+			return sliceV{nil: true}
+		}
+		ref, ok := m.elemOf[p]
+		if !ok || ref.i+n > len(ref.elems) {
+			m.unsupported("unsafe.Slice of an untracked pointer")
+		}
+		return sliceV{a: ref.elems, off: ref.i, len: n, cap: len(ref.elems) - ref.i}
+	case "StringData":
+		s := args[0].(Str)
+		a := make([]Value, s.Len())
+		for i := range a {
+			a[i] = s.At(i)
+		}
+		if len(a) == 0 {
+			return (*Value)(nil)
+		}
+		m.elemOf[&a[0]] = elemRef{a, 0}
+		return &a[0]
 	case "clear":
 		switch x := args[0].(type) {
 		case *MapV:
